@@ -1200,6 +1200,24 @@ func conv(t_dst, t_src types.Type, x value) value {
 		if b := basicOf(t_dst); b != nil && b.Info()&(types.IsInteger) != 0 {
 			return symConv(t_dst, t_src, sx)
 		}
+		if b := basicOf(t_dst); b != nil && b.Kind() == types.String {
+			if sb := basicOf(t_src); sb != nil && sb.Info()&types.IsInteger != 0 {
+				// string(rune) of a symbolic integer
+				w, _ := widthOf(t_src)
+				r := sx
+				if w < 32 {
+					r = symConv(types.Typ[types.Int32], t_src, sx).(sym)
+				} else if w > 32 {
+					// values outside the rune range encode as U+FFFD; clamp through 32 bits
+					if ex.decide(sym{t: fmt.Sprintf("(bvult %s %s)", sx.t, bvlit(0x110000, w))}) {
+						r = symConv(types.Typ[types.Int32], t_src, sx).(sym)
+					} else {
+						return "\uFFFD"
+					}
+				}
+				return mkStr(symEncodeRune(r))
+			}
+		}
 		x = concreteOf(t_src, ex.concretize(sx))
 	}
 	ut_src := t_src.Underlying()
@@ -1257,6 +1275,9 @@ func conv(t_dst, t_src types.Type, x value) value {
 
 		case types.Rune:
 			x := x.([]value)
+			if anySym(x) {
+				return runesToStr(x)
+			}
 			r := make([]rune, 0, len(x))
 			for i := range x {
 				r = append(r, x[i].(rune))
@@ -1282,7 +1303,7 @@ func conv(t_dst, t_src types.Type, x value) value {
 				if ut_dst.Elem().Underlying().(*types.Basic).Kind() == types.Byte {
 					return append([]value{}, ss...)
 				}
-				panic(abortPath{"unsupported: symstr -> []rune"})
+				return symRunes(ss)
 			case *types.Basic:
 				if ut_dst.Kind() == types.String {
 					return ss
@@ -1293,7 +1314,7 @@ func conv(t_dst, t_src types.Type, x value) value {
 		if s, ok := x.(string); ok {
 			switch ut_dst := ut_dst.(type) {
 			case *types.Slice:
-				var res []value
+				res := make([]value, 0, len(s))
 				switch ut_dst.Elem().Underlying().(*types.Basic).Kind() {
 				case types.Rune:
 					for _, r := range []rune(s) {
